@@ -1,6 +1,7 @@
 //! C18 / C14.6 / C02.D — segmentation of buffered bytes (`split_tx_queue_into_segments`): tier C.
 // @requires stream_dispatch__vs.rs
 // @requires stream_tx_segments__seg.rs
+// @requires mtu__c14.rs
 #![allow(unused_imports, dead_code, static_mut_refs)]
 use super::verif_stream_dispatch__vs::*;
 use super::*;
@@ -135,3 +136,51 @@ split_instance!(vs_split_empty, 0, 0, []);
 // @unwindset make_tx_at=9,__vs::record=37
 // @tier C
 split_instance!(vs_split_fill8_partial_in_flight, 8, 1, [2]);
+
+// ---- MTU probe rule (C14.6) ---------------------------------------------------------------------
+
+fn probe_step(outstanding: bool) {
+    // search interval [2, 6], cool-down expired: the next size is the probe 5
+    let mut t = make_vsock(VirtualSocketState::Established, VsConfig { link_mtu: 54, rx_buf: 12, nagle: false, ring: (8, 3, 8), tx_max: 8 });
+    t.vsock.segment_sizes = crate::mtu::verif_mtu__c14::verif_segment_sizes(2, 6, 0, 3);
+    {
+        let old = std::mem::replace(&mut t.vsock.user_tx_segments, segments_with::<0>(OUR_SEQ, [], 0, 0, false));
+        std::mem::forget(old);
+    }
+    unsafe { crate::stream_tx_segments::verif_stream_tx_segments__seg::POPX_RESULT = if outstanding { 1 } else { 0 } };
+    let wnd: u32 = kani::any();
+    kani::assume(wnd >= 8);
+    t.vsock.last_remote_window = wnd;
+    let w = cx_waker();
+    let mut cx = Context::from_waker(&w);
+    let r = t.vsock.split_tx_queue_into_segments(&mut cx);
+    let ok = r.is_ok();
+    std::mem::forget(r);
+    assert!(ok, "C10: segmentation does not fail");
+    let sizes = verif_sizes(&t.vsock.user_tx_segments);
+    let pf = verif_probe_flags(&t.vsock.user_tx_segments);
+    let n = t.vsock.user_tx_segments.total_len_packets();
+    if outstanding {
+        assert!(n == 0, "C14: nothing is segmented behind an outstanding probe (at most one probe, and it is the newest segment)");
+    } else {
+        assert!(n == 1 && sizes[0] == 5 && pf[0], "C14: with the cool-down over the next segment is the mid-point probe, flagged as such");
+        assert!(sizes[0] as u16 <= t.vsock.segment_sizes.max_ss(), "C14: a probe never exceeds the ceiling");
+        assert!(t.vsock.this_poll.unsegmented_data == 3, "C14: segmentation stops right after the probe: the probe is the newest segment");
+    }
+    finish(t);
+}
+
+// @verif id=VS.split.probe props=C14,C10 tier=quick timeout=900
+// @functions VirtualSocket::split_tx_queue_into_segments, SegmentSizes::next_segment_size
+// @bounds search interval [2, 6] with the cool-down expired; 8 bytes buffered; peer window ANY >= 8; Nagle off; (a) no probe outstanding, (b) an unexpired probe outstanding (contract stub outcome NotExpired)
+// @asserts (a) exactly one segment is created: the 5-byte probe, flagged, and segmentation stops behind it; (b) nothing at all is segmented behind an outstanding probe
+// @stubs Segments::pop_expired_mtu_probe -> contract stub (Empty / NotExpired)
+// @unwindset make_tx_at=9,__vs::record=37
+crate::verif_tier_c! {
+#[kani::stub(ringbuf::storage::Heap::new, crate::stream_tx::verif_stream_tx__tx::stub_heap_new)]
+#[kani::stub(crate::stream_tx_segments::Segments::pop_expired_mtu_probe, crate::stream_tx_segments::Segments::stub_pop_expired_mtu_probe)]
+#[kani::unwind(6)]
+fn vs_split_mtu_probe_rule() {
+    probe_step(kani::any());
+}
+}
